@@ -67,6 +67,10 @@ def to_py(ctx, v):
     v = ctx.m.peel(v)
     if v is None or isinstance(v, (bool, int, float, str)):
         return v
+    if isinstance(v, (list, tuple)):
+        return [to_py(ctx, x) for x in v]
+    if isinstance(v, dict):
+        return {k: to_py(ctx, x) for k, x in v.items()}
     if isinstance(v, Int):
         return v.v if isinstance(v.v, int) else str(v.v)
     if isinstance(v, FP):
@@ -113,6 +117,8 @@ def native_ok(r):
         return 'panic', r['panic']
     if 'crash' in r:
         return 'panic', 'process crashed: %r' % r['crash']
+    if 'timeout' in r:
+        return 'timeout', 'no answer within %ss' % r['timeout']
     return 'error', r.get('error')
 
 
